@@ -522,6 +522,13 @@ def ob_il_block(w, P):
                 box['A'] = c.pop(krow, default=None) is not None
             elif opA == 'delete':
                 box['A'] = c.delete(krow)
+            elif opA == 'setnew':
+                box['A'] = c.set(krow + 7, b'replacement')
+            elif opA == 'get_close':
+                # a lookup and then close(): closes this thread's own connection only -- the other thread's open block goes on
+                c.get(krow)
+                c.close()
+                box['A'] = True
         except core.Timeout:
             box['A'] = 'timeout'
 
@@ -544,6 +551,16 @@ def ob_il_block(w, P):
                         other.set(krow + 5, vb)
                         raise _Stop()
                 except _Stop:
+                    box['B'] = 'aborted'
+            elif opB == 'block_pop_raise':
+                # the block takes a file-backed item (its file is queued for removal at B's COMMIT) and is then abandoned
+                class _Stop2(Exception):
+                    pass
+                try:
+                    with other.transact():
+                        other.pop(krow, default=None)
+                        raise _Stop2()
+                except _Stop2:
                     box['B'] = 'aborted'
         except core.Timeout:
             box['B'] = 'timeout'
@@ -571,9 +588,13 @@ def ob_il_block(w, P):
         x.add('C05,C06', "B's write is there", And(itb.present, EqI(itb.c['value'].cls, INT)))
     elif box.get('B') == 'timeout':
         x.add('C05,C14', "a refused block left nothing", Not(itb.present))
-    ita = T1.lookup(Cell(INT, krow), Cell(INT, 1))
-    if box.get('A') is True:
-        x.add('C05', "A's write / removal took effect", ita.present if opA == 'setf' else Not(ita.present))
+    ita = T1.lookup(Cell(INT, krow + 7 if opA == 'setnew' else krow), Cell(INT, 1))
+    if opA == 'get_close':
+        x.add('C06,C05', "close() in one thread leaves the other thread's block alone", box.get('A') is True and box.get('B') in (True, 'aborted'))
+    elif box.get('A') is True:
+        x.add('C05', "A's write / removal took effect", ita.present if opA in ('setf', 'setnew') else Not(ita.present))
+    if opB == 'block_pop_raise' and opA == 'setnew' and box.get('B') in ('aborted', 'timeout'):
+        x.add('C05,C06,C07', 'the item an abandoned block had taken is still there', T1.lookup(Cell(INT, krow), Cell(INT, 1)).present)
     x.add('C05,C08', 'counters match', state.inv_table(T1))
     x.add('C05,C08', 'every row has its value file and no file is left over', x.s.fs_inv(T1))
     x.add('C05,C06', 'no transaction is left open or owned', c._txn_id is None and other._txn_id is None)
@@ -583,7 +604,7 @@ def ob_il_block(w, P):
 def jobs(tier):
     out = []
     for how in ('iter', 'reversed', 'iterkeys'):
-        out.append(dict(id='iter_suspended.%s' % how, func='ob_iter_suspended', params=dict(N=2, how=how, page=2), tags=['C05', 'C03'], weight=6,
+        out.append(dict(id='iter_suspended.%s' % how, func='ob_iter_suspended', params=dict(N=2, how=how, page=2), tags=['C05', 'C03', 'C18'], weight=6,
                         functions=['core.Cache._iter', 'core.Cache.iterkeys', 'core.Cache.get', 'core.Cache.set']))
     triples = ['incr+incr+incr', 'add+add+add', 'pop+pop+set', 'set+incr+delete', 'add+delete+add', 'incr+set+pop'] 
     for t in triples:
@@ -598,9 +619,16 @@ def jobs(tier):
             for who in ('thread', 'handle'):
                 out.append(dict(id='il_block.%s.%s.%s' % (a, b, who), func='ob_il_block', params=dict(N=1, a=a, b=b, who=who), tags=['C05', 'C06', 'C14', 'C08', 'C20'], weight=10,
                                 must_reach=['both_suspended'], functions=['core.Cache._transact', 'core.Cache.transact', 'core.Cache.set', 'core.Cache.pop', 'core.Disk.remove']))
+    for b in ('block_incr', 'block_raise'):
+        out.append(dict(id='il_block.get_close.%s.thread' % b, func='ob_il_block', params=dict(N=1, a='get_close', b=b, who='thread'), tags=['C06', 'C05', 'C18'], weight=10,
+                        must_reach=['both_suspended'], functions=['core.Cache._transact', 'core.Cache.transact', 'core.Cache.close', 'core.Cache.get', 'core.Cache.set', 'core.Cache.incr']))
+    for who in ('thread', 'handle'):
+        out.append(dict(id='il_block.setnew.block_pop_raise.%s' % who, func='ob_il_block', params=dict(N=1, a='setnew', b='block_pop_raise', who=who),
+                        tags=['C05', 'C06', 'C07', 'C08'], weight=10, must_reach=['both_suspended', 'block_aborted'],
+                        functions=['core.Cache._transact', 'core.Cache.transact', 'core.Cache.set', 'core.Cache.pop', 'core.Disk.remove']))
     for a in ('touch', 'incr', 'set', 'add', 'pop', 'delete', 'get'):
         for b1 in ('delete', 'pop'):
-            out.append(dict(id='pair_seq.%s.%s+set' % (a, b1), func='ob_pair_seq', params=dict(N=1 if tier == 'quick' else 2, a=a, b1=b1, b2='set'), tags=['C05', 'C04', 'C08'], weight=8,
+            out.append(dict(id='pair_seq.%s.%s+set' % (a, b1), func='ob_pair_seq', params=dict(N=1 if tier == 'quick' else 2, a=a, b1=b1, b2='set'), tags=['C05', 'C04', 'C08'] + (['C02'] if a == 'pop' else []), weight=8,
                             must_reach=['interleaved'], functions=['core.Cache.%s' % a, 'core.Cache.delete', 'core.Cache.set', 'core.Cache._transact']))
     for a in ('setf', 'addf', 'pushf'):
         for b in ('delete', 'pop', 'seti'):
